@@ -286,6 +286,96 @@ func checkC18(c *Check) {
 		c.Fail("C18-R2 lost instances: %d flows", nflow)
 	}
 
+	// ---- R2 (cont.) the compute-profile converter: cpu / memory / storage of the result are filled from the section of
+	// the same name, both the amount and the attributes
+	{
+		tr := l.Func("sdl", "v2ComputeResources", "toResourceUnits")
+		c.Analysed(fnName(tr))
+		nst := 0
+		filled := map[string]bool{}
+		for _, g := range fnAndClosuresDeep(tr) {
+			eachInstr(g, func(i ssa.Instruction) {
+				st, ok := i.(*ssa.Store)
+				if !ok {
+					return
+				}
+				fa, ok := st.Addr.(*ssa.FieldAddr)
+				if !ok {
+					return
+				}
+				tn, f := structFieldOf(fa)
+				kind := ""
+				for _, k := range []string{"CPU", "Memory", "Storage"} {
+					if strings.HasSuffix(tn, "akash/types."+k) {
+						kind = k
+					}
+				}
+				if kind == "" {
+					return
+				}
+				nst++
+				v := Sym(st.Val)
+				ok2 := strings.Contains(v, "."+kind+"."+f) || (f == "Units" || f == "Quantity") && (strings.Contains(v, "."+kind+".Units") || strings.Contains(v, "."+kind+".Quantity"))
+				for _, other := range []string{"CPU", "Memory", "Storage"} {
+					if other != kind && strings.Contains(v, "."+other+".") {
+						ok2 = false
+					}
+				}
+				filled[kind+"."+f] = true
+				c.Ob("R2", "compute profile: "+kind+"."+f+" of the resource units comes from the "+strings.ToLower(kind)+" section", st.Pos(), ok2, kind+"."+f+" is filled from "+short(v))
+			})
+		}
+		all := true
+		for _, k := range []string{"CPU.Units", "CPU.Attributes", "Memory.Quantity", "Memory.Attributes", "Storage.Quantity", "Storage.Attributes"} {
+			if !filled[k] {
+				all = false
+			}
+		}
+		c.Ob("R2", "compute profile: amount and attributes of cpu, memory and storage are all translated", tr.Pos(), all && nst >= 6, "a field of the resource units is never filled: what the tenant declared for it is dropped")
+	}
+
+	// ---- R2 (cont.) a list the tenant wrote as a YAML sequence keeps its declared order: a slice filled by decoding a
+	// node directly (node.Decode(&xs)) is never handed to a sort (the sorts of this package order what was collected from
+	// mappings, whose order is not content)
+	{
+		nsort := 0
+		for _, fn := range l.pkgFuncs("sdl") {
+			for _, call := range callsInOwn(fn) {
+				full := calleeFull(call)
+				if full != "sort.Strings" && full != "sort.Slice" && full != "sort.SliceStable" && full != "sort.Sort" && full != "sort.Stable" && full != "sort.Ints" {
+					continue
+				}
+				nsort++
+				arg := call.Common().Args[0]
+				if mi, ok := arg.(*ssa.MakeInterface); ok {
+					arg = mi.X
+				}
+				decoded := false
+				if ld, ok := arg.(*ssa.UnOp); ok {
+					if al, isA := ld.X.(*ssa.Alloc); isA {
+						for _, r := range *al.Referrers() {
+							use := r
+							if mi, isMI := r.(*ssa.MakeInterface); isMI && mi.Referrers() != nil {
+								for _, r2 := range *mi.Referrers() {
+									if ci, isC := r2.(ssa.CallInstruction); isC && (calleeMethod(ci) == "Decode" || strings.Contains(calleeMethod(ci), "Unmarshal")) {
+										decoded = true
+									}
+								}
+							}
+							if ci, isC := use.(ssa.CallInstruction); isC && (calleeMethod(ci) == "Decode" || strings.Contains(calleeMethod(ci), "Unmarshal")) {
+								decoded = true
+							}
+						}
+					}
+				}
+				if decoded {
+					c.Ob("R2", "a declared sequence keeps its order in "+fnName(fn), call.Pos(), false, "the slice decoded from the document is sorted: the order the tenant declared (hosts, arguments, ...) is lost and two different documents translate alike")
+				}
+			}
+		}
+		c.Ob("R2", "no sort is applied to a slice decoded directly from a YAML sequence ("+itoa(nsort)+" sort calls examined)", sdlPos(l), nsort >= 1, "")
+	}
+
 	// ---- R3 sibling agreement
 	{
 		// same converter
@@ -810,3 +900,5 @@ func sliceHas(v ssa.Value, seen map[ssa.Value]bool, depth int, pred func(ssa.Val
 	}
 	return false
 }
+
+func sdlPos(l *Loaded) token.Pos { return l.Func("sdl", "", "Read").Pos() }
